@@ -268,10 +268,13 @@ __CPROVER_ensures(gj < self->count.v ==> self->datac[gj] == __CPROVER_old(self->
 
 from contracts import C14_gdeque
 UNITS += C14_gdeque.make(ring_prelude(4), ['Ring_precondition_4', 'Ring_full_4', 'Ring_empty_4', 'Ring_emplace_back_4', 'Ring_emplace_front_4', 'Ring_pop_back_4', 'Ring_pop_front_4', 'Ring_front_4', 'Ring_back_4'])
+from contracts import C14_heap
+UNITS += C14_heap.UNITS
 from contracts import C14_pra
 UNITS += C14_pra.UNITS
 
-EXPLANATION = ('gdeque<T,4> (contracts/C14_gdeque.py): emplace/push_back, emplace/push_front, pop_back, pop_front, front, back, size, empty, extend_first/last, shrink as LOCAL contracts on the end block, its neighbour and first/last/num '
+EXPLANATION = ('MinHeap (contracts/C14_heap.py): range constructor, push, pop, pop_internal, top as a TYPESTATE contract over the wrapped container (for which comparator it is a heap; std::make_heap/push_heap/pop_heap are stubs with the standard\'s preconditions): the container is always a heap for revCmp and every std algorithm gets the comparator the heap was built for, so top()/pop() hand out the minimum.  '
+               'gdeque<T,4> (contracts/C14_gdeque.py): emplace/push_back, emplace/push_front, pop_back, pop_front, front, back, size, empty, extend_first/last, shrink as LOCAL contracts on the end block, its neighbour and first/last/num '
                '(the element arrives at / leaves exactly that end; a block that becomes empty is unlinked and freed once; a full end block gets a fresh neighbour; nothing else is touched), on the inlined FixedSizeRing bodies.  '
                'PODResizeableArray<uint8_t|uint64_t> (contracts/C14_pra.py): constructors, move, destructor, reserve/resize/clear, operator[]/at/front/back/data, begin/end/size/max_size/empty, push_back (also of an own element), insert at end, assign, swap against the abstract sequence data_[0..size_) -- same results as std::vector, every other element kept (ghost probe), block = exactly capacity_ elements, blocks freed once.  '
                'FixedSizeRing (size/empty/full, emplace_front/back, pop_front/back, front/back/getAt, clear, begin/end, iterator ++/--/+=/-/*), '
@@ -280,7 +283,9 @@ EXPLANATION = ('gdeque<T,4> (contracts/C14_gdeque.py): emplace/push_back, emplac
                'every operation returns what the standard container would, changes nothing else in the sequence, and constructs/destroys each element exactly once.')
 NOT_DECIDED = ('FixedSizeRing::emplace(pos) in the middle (std::move_backward over ring iterators), gdeque clear()/emplace(pos)/erase/iterators/operator[] (walks over the unbounded block list) and the global "sequence = concatenation of the blocks" view, gslist, FlatMap, LazyArray/LazyObject/optional themselves, PODResizeableArray with self-referencing ranges (assign/insert from own iterators: undefined for std::vector too) and allocation failure, '
                'PriorityQueue family, InsertBag, TwoLevelIterator(A), LargeArray; other ChunkSize values (template constant instantiated concretely).')
-ASSUMPTIONS = ['PODResizeableArray: realloc = trusted stub over CBMC malloc (new block, content kept at the probe element, old block poisoned at the probe element instead of freed), never fails; std::copy_n/memcpy = element-wise copy at a probe index; sizes <= 2^40; NULL+0 in begin()/end() accepted (defined in C++)',
+ASSUMPTIONS = ['MinHeap: the std:: heap algorithms as typestate stubs (C++ standard: push_heap/pop_heap need a heap for the SAME comparator; make_heap establishes one); element values abstracted away',
+               'gdeque: alloc_block/free_block stubs (malloc + empty ring / assert-empty + free); list shape described locally (end block + neighbour)',
+               'PODResizeableArray: realloc = trusted stub over CBMC malloc (new block, content kept at the probe element, old block poisoned at the probe element instead of freed), never fails; std::copy_n/memcpy = element-wise copy at a probe index; sizes <= 2^40; NULL+0 in begin()/end() accepted (defined in C++)',
                'LazyArray<T,N> = array of N slots + ghost live bit per slot (la_emplace/la_destroy/la_at in the prelude)',
                'element type T is an opaque 64-bit token (copy = assignment); std::forward is the identity',
                'ConcurrentFixedSizeBag: counter through the interference stub with the rely "unchanged by others" (single-thread use)',
